@@ -375,6 +375,11 @@ static json gen_opts(Rng &r, const SchemaGen &g, int depth)
 			}
 			if (g.pcb && !g.printable_only && r.chance(1, 4))
 				o["pcb"] = 1;
+			if (g.simple && !list && depth == 0 && r.chance(1, 5)) {
+				o["simple"] = 1; // bound to an application variable; the library handles no default for these
+				o.erase("d");
+				fl &= ~F_NODEFAULT;
+			}
 			if (g.vcb2 && t != "bool" && r.chance(1, 3))
 				o["vcb2"] = 1;
 		}
